@@ -1,5 +1,6 @@
 // C02: inverse geodesic problem
 #include "geodcommon.hpp"
+#include "C02_series.hpp"
 using namespace gd; using namespace gv;
 
 struct Inv { double s12, azi1, azi2, a12, m12, M12, M21, S12; };
@@ -112,6 +113,8 @@ void gv::generate(const std::string& tier, uint64_t seed) {
     run("ginverse", {hx(a), hx(f), hx(lat1), hx(lon1), hx(lat2), hx(lon2)});
     stratum("inverse-" + std::to_string(k < 10 ? k : k >= 12 ? k : 10));
     if (i < 3) sample(current_op());
+    // pieces of the series solver (Lambda12 on this pair's reduced latitudes, Astroid) through the Lean model
+    ginv::model_case(r, a, f, lat1, lat2, lon2 - lon1);
     // wrapper correspondence on inputs with exactly representable longitude differences (so the core sees the same problem)
     double g1 = grid(-90, 90), g2 = grid(-90, 90), h1 = grid(-180, 180) + 360 * r.irange(-1, 1), h2 = grid(-180, 180);
     if (k == 1) g1 = r.pick(std::vector<double>{90, -90, 0, -0.0}); if (k == 2) { g1 = 0; g2 = -0.0; } if (k == 3) h2 = h1 + 180; if (k == 5) { g2 = g1; h2 = h1; } if (k == 7) g2 = -g1;
